@@ -765,9 +765,22 @@ class Body:
         if on.kind == 'discr':
             # find the variants table on the defining statement
             variants = None
+            dplace = None
             for (bi, si, st) in self.defs.get(d['place']['l'], []) if d['k'] != 'const' else []:
                 if si != 'call' and st['rv']['k'] == 'discr':
                     variants = st['rv'].get('variants')
+                    dplace = st['rv']['place']
+            if on.key.kind == 'local' and on.key.projs and dplace is not None:
+                # a part of a value that was put together on several paths (`Some(f(x))` / `None` handed
+                # through a join and taken apart again): resolve it when every path that can supply this
+                # part supplies the same value
+                try:
+                    from taint import origin_vals
+                    vs = origin_vals(self, {'k': 'copy', 'place': dplace})
+                    if len(vs) == 1 and next(iter(vs)).kind != 'local':
+                        on = V('discr', next(iter(vs)))
+                except RecursionError:
+                    pass
             names = {}
             if variants:
                 names = dict((v_[0], v_[1]) for v_ in variants)
